@@ -32,8 +32,9 @@ class Ctx:
 
 
 class Clause:
-    def __init__(self, name, fn, props):
+    def __init__(self, name, fn, props, internal=False):
         self.name, self.fn, self.props = name, fn, tuple(props)
+        self.internal = internal  # talks about the callee's own effect log: proved on the body, not assumed by callers
 
 
 class LoopSpec:
@@ -84,14 +85,14 @@ class Contract:
         self.requires_.append(Clause(name, fn, ()))
         return self
 
-    def ensures(self, name, fn, props=None):
-        self.ensures_.append(Clause(name, fn, props or _props_of(name)))
+    def ensures(self, name, fn, props=None, internal=False):
+        self.ensures_.append(Clause(name, fn, props or _props_of(name), internal))
         return self
 
-    def exsures(self, cls, name=None, fn=None, props=None):
+    def exsures(self, cls, name=None, fn=None, props=None, internal=False):
         lst = self.exsures_.setdefault(cls, [])
         if name is not None:
-            lst.append(Clause(name, fn, props or _props_of(name)))
+            lst.append(Clause(name, fn, props or _props_of(name), internal))
         return self
 
     def returns(self, kind):
@@ -254,7 +255,7 @@ def collect_obligations(source, registry, models_cls, contract, prune=True):
         gouts = ex.run_generator(fr, [], call_kwargs, st, consume)
         outs = [Outcome("return", None, o.st) if o.kind == "fall" else o for o in gouts]
     else:
-        outs, _ = ex.run_function_raw(fr, [], call_kwargs, st)
+        outs = ex.run_function_raw(fr, [], call_kwargs, st)
     obs = []
     feasible_paths = 0
     kinds = {"return": 0, "raise": 0}
@@ -351,7 +352,8 @@ def apply_contract(ex, contract, fr, args, kwargs, st, node, bound_self=None):
         cx = Ctx(s2, log0)
         if contract.assume_at_call_sites:
             for cl in contract.exsures_[cls]:
-                s2.assume(cl.fn(a, excv, cx))
+                if not cl.internal:
+                    s2.assume(cl.fn(a, excv, cx))
         if ex.feasible is None or ex.feasible(s2.pc):
             out.append(Exc(excv, s2))
     s1 = base
@@ -364,7 +366,8 @@ def apply_contract(ex, contract, fr, args, kwargs, st, node, bound_self=None):
     cx = Ctx(s1, log0)
     if contract.assume_at_call_sites:
         for cl in contract.ensures_:
-            s1.assume(cl.fn(a, res, cx))
+            if not cl.internal:
+                s1.assume(cl.fn(a, res, cx))
     # ghost record of what the callee returned (clauses of the caller may refer to it)
     s1.emit("CallResult", contract.qualname, res, a)
     if ex.feasible is None or ex.feasible(s1.pc):
